@@ -715,7 +715,7 @@ func (fc *FnCtx) atCall(st *State, instr ssa.CallInstruction, name string, args 
 		ord = fc.callOrd[instr] // an inlined closure with anchors of its own counts locally
 	}
 	for _, a := range owner.contract.Ats {
-		if a.Kind != "call" || a.Target != name || (a.Ord >= 0 && a.Ord != ord) || a.After != after || ord == -2 {
+		if a.Kind != "call" || !fc.e.anchorTargetMatches(a.Target, name) || (a.Ord >= 0 && a.Ord != ord) || a.After != after || ord == -2 {
 			continue
 		}
 		a := a
